@@ -97,9 +97,9 @@ fn asset(name: &str) -> Arc<Vec<u8>> {
     } else {
         sdk::fixture(name)
     };
-    let a = Arc::new(bytes);
-    cache.lock().unwrap().insert(name.to_string(), a.clone());
-    a
+    // several threads may prepare the same asset concurrently (signing is randomised): the first insert wins
+    // and everybody uses that one
+    cache.lock().unwrap().entry(name.to_string()).or_insert_with(|| Arc::new(bytes)).clone()
 }
 
 fn settings_for(op: &OpSpec) -> serde_json::Value {
